@@ -246,12 +246,14 @@ func c10TokenSafe(d c10Doc) bool {
 		if !all(s.Name, s.Queue, s.Group) || !all(s.Includes...) {
 			return false
 		}
+		// the crontab token carries blank, tab, newline and carriage return as ␣ ⇥ ↵ ↩ (leading and trailing
+		// white space included: "validated trimmed, stored raw" is a class of its own)
 		for _, r := range s.Crontab {
-			if r == '␣' || r == '\n' || r == '\r' || (r < ' ' && r != '\t') || r == '\t' {
+			if r == '␣' || r == '⇥' || r == '↵' || r == '↩' || (r < ' ' && r != '\t' && r != '\n' && r != '\r') {
 				return false
 			}
 		}
-		if s.Crontab == "_" || s.Crontab != "" && (s.Crontab[0] == ' ' || s.Crontab[len(s.Crontab)-1] == ' ') {
+		if s.Crontab == "_" {
 			return false
 		}
 	}
